@@ -841,7 +841,7 @@ func drawCase(t *rapid.T, s *rt.Section) Case {
 	o := gen.DefaultOpts()
 	o.MaxStmts = 3
 	o.MaxDepth = 3
-	o.SingleKeyDicts = true // nothing compared may depend on Go map order
+	o.SingleKeyDicts = false // dicts of several keys: what a script sees of them (text, keys, values, items) must not depend on Go map order
 	o.ThisAssign = false    // open finding of C02 (this.x = v is dropped)
 	o.StrIndexOOB = false   // open finding of C02 (string index past the end)
 	o.Avoid = s.Avoid
